@@ -31,7 +31,7 @@ RULE = ('histories of 2-6 tasks from {create(persist), launch(persist, nowait), 
 ASSUMPTIONS = ['the RabbitMQ transport is replaced by the in-process communicator of pv/comm.py', 'errors may arrive wrapped in RemoteException']
 REQUIRED = ['unsaveable_persist_tasks', 'second_launcher_continues', 'late_failures', 'tasks/create', 'tasks/launch', 'tasks/continue', 'tasks/bogus', 'rejected', 'persisted_checks', 'nowait_replies', 'wait_replies', 'error_replies',
             'route/direct', 'route/thread', 'route/async', 'persister/none', 'persister/mem', 'persister/pickle', 'persister/failing', 'loader/custom',
-            'loader/custom_ctx', 'continued_from_tag', 'traces_checked', 'killed_replies']
+            'loader/custom_ctx', 'continued_from_tag', 'traces_checked', 'killed_replies', 'launcher_built_elsewhere', 'absent_tag_with_untagged_checkpoint']
 BOUNDS = {'quick': '400 histories', 'thorough': '6000 histories'}
 
 S = programs.step
@@ -92,13 +92,16 @@ def gen_cases(tier, seed):
                 created += 1
             elif r < 0.9:
                 ref = rng.randrange(created) if created and rng.random() < 0.85 else 'unknown'
-                op = ['continue', ref, rng.choice([None, None, 't']), rng.random() < 0.5]
+                # (tag 'gone': a tag under which nothing was ever saved, while the untagged checkpoint of the process may well exist)
+                op = ['continue', ref, rng.choice([None, None, 't', 't', 'gone']), rng.random() < 0.5]
                 if not op[3] and rng.random() < 0.3:
                     op.append('kill')
                 hist.append(op)
             else:
                 hist.append(['bogus', rng.choice(BOGUS)])
-        yield {'persister': persister, 'loader': loader, 'route': route, 'history': hist}
+        # the launcher object is usually built inside the loop that serves it; it may as well be built beforehand, while another loop
+        # (or none of its own) is the thread's current one and without naming a loop
+        yield {'persister': persister, 'loader': loader, 'route': route, 'history': hist, 'built': 'elsewhere' if i % 5 == 2 else 'in-loop'}
 
 
 #: unknown task types, among them names that resemble the known ones or attributes of the launcher object
@@ -153,7 +156,18 @@ def run_case(case):
             kwargs = {'loop': loop, 'persister': persister, 'loader': loader}
             if case['loader'] == 'custom_ctx':
                 kwargs['load_context'] = plumpy.LoadSaveContext()
-            launcher = pc.ProcessLauncher(**kwargs)
+            if case.get('built') == 'elsewhere':
+                other = asyncio.new_event_loop()
+                asyncio.set_event_loop(other)
+                try:
+                    kwargs.pop('loop')
+                    launcher = pc.ProcessLauncher(**kwargs)
+                finally:
+                    asyncio.set_event_loop(loop)
+                    other.close()
+                obs['launcher_built_elsewhere'] = 1
+            else:
+                launcher = pc.ProcessLauncher(**kwargs)
             base = comm.RmqShaped()
             lcomm = communications.LoopCommunicator(base, loop)
             lcomm.add_task_subscriber(launcher)
@@ -346,6 +360,10 @@ def run_case(case):
                             viol.append(V('rejected-but-ran', 'rejected-but-ran:continue', '%s: a rejected continue created processes' % ctx))
                         continue
                     if not have:
+                        if tag == 'gone' and target and target.get('persisted') and can_persist:
+                            obs['absent_tag_with_untagged_checkpoint'] = obs.get('absent_tag_with_untagged_checkpoint', 0) + 1
+                        if new:
+                            viol.append(V('continue-absent-ran', 'continue-absent-ran', '%s: no checkpoint (%r, %r), yet %d process(es) were recreated' % (ctx, pid, tag, len(new))))
                         if rep[0] not in ('error', 'rejected'):
                             viol.append(V('continue-absent', 'continue-absent', '%s: no checkpoint (%r, %r) but the reply is %s' % (ctx, pid, tag, rep)))
                         continue
